@@ -30,7 +30,7 @@ def deviations(work):
             out.append(r)
     for mod, cfg, consts in DEVIATIONS:
         for c in consts:
-            p = cfg_with(cfg, work, "dev-%s-%s" % (mod, c), {c: "FALSE"})
+            p = cfg_with(cfg, work, "dev-%s-%s.cfg" % (mod, c), {c: "FALSE"})
             r = tlc(mod, p, work, workers=8, timeout=1800)
             out.append({"module": mod, "cfg": cfg, "constant": c, "counterexample_found": not r.ok,
                         "violated": r.violated or r.errors[:1], "states": r.distinct})
